@@ -12,6 +12,8 @@ import numpy
 from .. import tree  # noqa: F401
 import numpoly
 
+from ..snap import recall
+
 from ..alpha import alpha, wellformed
 from ..model import V, exact_array
 
@@ -284,6 +286,12 @@ def run_case(case, R):
                     except Exception as err:  # noqa: BLE001
                         R.fail("glexindex", "exception", f"{lab}: {type(err).__name__}: {err}", tags=tags)
                         continue
+                    recall(R, "glexindex", lab, lambda: numpoly.glexindex(start, stop, D, cross_truncation=ctv, graded=graded, reverse=reverse), got, tags)
+                    try:
+                        got = numpoly.glexindex(start, stop, D, cross_truncation=ctv, graded=graded, reverse=reverse)
+                    except Exception as err:  # noqa: BLE001
+                        R.fail("glexindex", "exception", f"{lab} (second call): {type(err).__name__}: {err}", tags=tags)
+                        continue
                     got = numpy.asarray(got)
                     bad = None
                     if got.ndim != 2 or got.shape[1] != D:
@@ -306,6 +314,8 @@ def run_case(case, R):
                     R.tr()
                     lab = f"bindex start={start} stop={stop} D={D} ordering={ordering!r} cross_truncation={ct}"
                     try:
+                        first = numpoly.bindex(start, stop, D, ordering=ordering, cross_truncation=ct)
+                        recall(R, "bindex", lab, lambda: numpoly.bindex(start, stop, D, ordering=ordering, cross_truncation=ct), first, [f"D={D}"])
                         got = numpy.asarray(numpoly.bindex(start, stop, D, ordering=ordering, cross_truncation=ct))
                     except Exception as err:  # noqa: BLE001
                         R.fail("bindex", "exception", f"{lab}: {type(err).__name__}: {err}", tags=[f"D={D}"])
@@ -322,6 +332,8 @@ def run_case(case, R):
                 for q in NORMS:
                     R.tr()
                     try:
+                        first = numpoly.cross_truncate(grid, numpy.array(bound), q)
+                        recall(R, "cross_truncate", f"bound={bound} norm={q}", lambda: numpoly.cross_truncate(grid, numpy.array(bound), q), first, [f"d={d}"], {"grid": grid})
                         got = numpy.asarray(numpoly.cross_truncate(grid, numpy.array(bound), q))
                     except Exception as err:  # noqa: BLE001
                         R.fail("cross_truncate", "exception", f"bound={bound} norm={q}: {type(err).__name__}: {err}", tags=[f"d={d}"])
@@ -362,6 +374,8 @@ def run_case(case, R):
                         if not sure:
                             R.stat("monomial_empty")
                             continue
+                        recall(R, "monomial", lab, lambda: numpoly.monomial(start, stop, dimensions=D, cross_truncation=ct, graded=graded, reverse=reverse), got, [f"D={D}"])
+                        got = numpoly.monomial(start, stop, dimensions=D, cross_truncation=ct, graded=graded, reverse=reverse)
                         t = {}
                         for i, e in enumerate(sure):
                             col = numpy.zeros(len(sure), dtype=int)
